@@ -336,3 +336,113 @@ func (p *Prog) SideConds(pkg string, keep func(file string) bool) []SideSum {
 	}
 	return out
 }
+
+// ExtremumUpdate is a guarded update `if … a < b … { c = a }` (single assignment, no else): the running minimum or
+// maximum idiom. It is consistent when the variable compared with (b) is the variable updated (c).
+type ExtremumUpdate struct {
+	Func       string
+	Stmt       *ast.IfStmt
+	Text       string
+	Consistent bool
+	Compared   string
+	Updated    string
+}
+
+// ExtremumUpdates lists the guarded updates of pkg.
+func (p *Prog) ExtremumUpdates(pkg string, keep func(file string) bool) []ExtremumUpdate {
+	pk := p.ByPath[pkg]
+	if pk == nil {
+		return nil
+	}
+	base := func(e ast.Expr) string {
+		for {
+			switch x := e.(type) {
+			case *ast.ParenExpr:
+				e = x.X
+				continue
+			case *ast.CallExpr:
+				// x.V(), pr.Float(x), float64(x): value-preserving views
+				if sel, ok := x.Fun.(*ast.SelectorExpr); ok && len(x.Args) == 0 && sel.Sel.Name == "V" {
+					e = sel.X
+					continue
+				}
+				if len(x.Args) == 1 {
+					if _, isIdent := x.Fun.(*ast.Ident); isIdent {
+						e = x.Args[0]
+						continue
+					}
+					if sel, ok := x.Fun.(*ast.SelectorExpr); ok {
+						if id, ok := sel.X.(*ast.Ident); ok && (id.Name == "pr" || id.Name == "utils") && (sel.Sel.Name == "Float" || sel.Sel.Name == "Fl") {
+							e = x.Args[0]
+							continue
+						}
+					}
+				}
+			}
+			return p.NodeText(e)
+		}
+	}
+	var out []ExtremumUpdate
+	for _, f := range pk.Syntax {
+		name := p.Fset.Position(f.Pos()).Filename
+		if i := strings.LastIndex(name, "/"); i >= 0 {
+			name = name[i+1:]
+		}
+		if strings.HasSuffix(name, "_test.go") || (keep != nil && !keep(name)) {
+			continue
+		}
+		for _, d := range f.Decls {
+			fd, ok := d.(*ast.FuncDecl)
+			if !ok || fd.Body == nil {
+				continue
+			}
+			ast.Inspect(fd.Body, func(n ast.Node) bool {
+				ifs, ok := n.(*ast.IfStmt)
+				if !ok || ifs.Else != nil || len(ifs.Body.List) != 1 {
+					return true
+				}
+				as, ok := ifs.Body.List[0].(*ast.AssignStmt)
+				if !ok || as.Tok.String() != "=" || len(as.Lhs) != 1 || len(as.Rhs) != 1 {
+					return true
+				}
+				lhs, rhs := base(as.Lhs[0]), base(as.Rhs[0])
+				if lhs == rhs {
+					return true
+				}
+				// the comparisons of the condition (through && chains)
+				var cmps []*ast.BinaryExpr
+				var walk func(e ast.Expr)
+				walk = func(e ast.Expr) {
+					switch x := e.(type) {
+					case *ast.ParenExpr:
+						walk(x.X)
+					case *ast.BinaryExpr:
+						switch x.Op.String() {
+						case "&&":
+							walk(x.X)
+							walk(x.Y)
+						case "<", ">", "<=", ">=":
+							cmps = append(cmps, x)
+						}
+					}
+				}
+				walk(ifs.Cond)
+				for _, cmp := range cmps {
+					a, b := base(cmp.X), base(cmp.Y)
+					other := ""
+					switch rhs {
+					case a:
+						other = b
+					case b:
+						other = a
+					default:
+						continue
+					}
+					out = append(out, ExtremumUpdate{fd.Name.Name, ifs, p.NodeText(ifs.Cond) + " { " + p.NodeText(as) + " }", other == lhs, other, lhs})
+				}
+				return true
+			})
+		}
+	}
+	return out
+}
